@@ -352,7 +352,10 @@ func TestVerifC05(t *testing.T) {
 // then for every cache file x truncation class {0, 1, mid, len-1} and every small subset of
 // deleted files rerun on a copy of the damaged cache: problems and exit status must equal the
 // run without a cache.
-func c05Binary(res *vx.Result) {
+func c05Binary(res *vx.Result) { c05BinaryOnly(res, "") }
+
+// c05BinaryOnly runs part D; with only != "" just that damage case (replay).
+func c05BinaryOnly(res *vx.Result, only string) {
 	bin := os.Getenv("VERIF_BIN_STATICCHECK")
 	if bin == "" {
 		res.Note("part D skipped: no staticcheck binary")
@@ -360,6 +363,13 @@ func c05Binary(res *vx.Result) {
 	}
 	scratch := vx.ScratchDir()
 	dir := filepath.Join(scratch, "ws")
+	// the workspace is made visible at one fixed path, so that cache file names (hashes that
+	// depend on the absolute directory) and with them the violation keys are the same in every
+	// run and in replays
+	if ws.CanMount(scratch) {
+		ws.MountAt = "/var/tmp/.verif-c05-ws"
+		os.MkdirAll(ws.MountAt, 0o755)
+	}
 	p := (1<<ws.NumWSBits - 1) &^ ws.BadConf
 	if err := ws.Write(dir, p, false); err != nil {
 		res.Note("part D: %v", err)
@@ -438,6 +448,9 @@ func c05Binary(res *vx.Result) {
 	sem := make(chan struct{}, runtime.NumCPU())
 	var mu sync.Mutex
 	for i, c := range cases {
+		if only != "" && c.desc != only {
+			continue
+		}
 		if res.Expired() {
 			res.NotExhaustive(fmt.Sprintf("part D: time budget reached after %d of %d damage cases", i, len(cases)))
 			break
@@ -461,11 +474,11 @@ func c05Binary(res *vx.Result) {
 			res.Count("binary_damage_cases", 1)
 			res.NontrivialN(1)
 			if err != nil {
-				res.Violate("D:"+c.desc, "run with damaged cache failed: "+err.Error(), map[string]any{"part": "D", "damage": c.desc})
+				res.Violate("D:"+c.desc, "run with damaged cache failed: "+err.Error(), c05Case{Part: "D", Damage: []string{c.desc}})
 				return
 			}
 			if out != cold {
-				res.Violate("D:"+c.desc, fmt.Sprintf("results through the damaged cache (%s) differ from the cold run:\n--- damaged\n%s--- cold\n%s", c.desc, out, cold), map[string]any{"part": "D", "damage": c.desc})
+				res.Violate("D:"+c.desc, fmt.Sprintf("results through the damaged cache (%s) differ from the cold run:\n--- damaged\n%s--- cold\n%s", c.desc, out, cold), c05Case{Part: "D", Damage: []string{c.desc}})
 			}
 		}(i, c)
 	}
@@ -693,6 +706,10 @@ func c05Concurrency(res *vx.Result, shard, nshards int, hits, misses *int64) {
 
 func c05Replay(res *vx.Result, cs c05Case) {
 	st := &c05Stats{}
+	if cs.Part == "D" && len(cs.Damage) == 1 {
+		c05BinaryOnly(res, cs.Damage[0])
+		return
+	}
 	switch cs.Part {
 	case "A":
 		m, _, _, _ := c05RunSeq(cs.Seq, cs.CrashAt, st)
